@@ -422,6 +422,143 @@ def check_set_output(rep, fn):
                                       'the flow definition (again) before the next buffer'}))
 
 
+
+# ---- R-gate-inner: a pipe this one feeds by hand has accepted the flow definition -------------------------------
+def _fail_polarity(fn, c, is_target):
+    """'T' if the condition is true when the negotiation failed, 'F' if false, None if it does not test it"""
+    c = strip_all_casts(c)
+    if not isinstance(c, dict):
+        return None
+    if is_target(c):
+        return 'T'
+    k = c.get('k')
+    if k == 'call' and c.get('fn') == '__builtin_expect' and c.get('args'):
+        return _fail_polarity(fn, fn.resolve(c['args'][0]), is_target)
+    if k == 'un' and c.get('op') == '!':
+        r = _fail_polarity(fn, fn.resolve(c['e']), is_target)
+        return {'T': 'F', 'F': 'T'}.get(r)
+    if k == 'call' and c.get('fn') == 'ubase_check' and c.get('args'):
+        r = _fail_polarity(fn, fn.resolve(c['args'][0]), is_target)
+        return {'T': 'F', 'F': 'T'}.get(r)
+    if k == 'bin' and c.get('op') in ('!=', '=='):
+        for a, b in ((c['lhs'], c['rhs']), (c['rhs'], c['lhs'])):
+            r = _fail_polarity(fn, fn.resolve(a), is_target)
+            bb = strip_all_casts(fn.resolve(b))
+            if r and isinstance(bb, dict) and const_of(bb) == 0:
+                return r if c['op'] == '!=' else {'T': 'F', 'F': 'T'}[r]
+    if is_assign(c):
+        return _fail_polarity(fn, fn.resolve(c['rhs']), is_target)
+    return None
+
+
+def check_gate_inner(rep, prog, u, setflow_handlers):
+    from upv import pathrules as pr
+    n = 0
+    for fn in sorted(u.funcs.values(), key=lambda f: f.name):
+        if not (fn.inmain and fn.blocks):
+            continue
+        ev = None
+        for bid, st, x in fn.nodes():
+            if x.get('k') == 'call' and x.get('fn') == 'upipe_set_flow_def' and x.get('args'):
+                ev = pr.Events(fn)
+                break
+        if ev is None:
+            continue
+
+        def local_of(a):
+            a = strip_all_casts(fn.resolve(a))
+            if isinstance(a, dict) and a.get('k') == 'call' and a.get('fn') == 'upipe_use' and a.get('args'):
+                a = strip_all_casts(fn.resolve(a['args'][0]))
+            if isinstance(a, dict) and a.get('k') == 'ref' and a.get('d') not in ('param', 'enum', 'global', 'func'):
+                return a.get('n')
+            return None
+        for pos in ev.find(lambda x: x.get('k') == 'call' and x.get('fn') == 'upipe_set_flow_def' and x.get('args')):
+            call = pos[2]
+            X = local_of(call['args'][0])
+            if X is None:
+                continue
+
+            def keeps(x, X=X):
+                """the pipe is installed in the structure: s->F = X, s->F = upipe_use(X), P_store_bin_input(upipe, X)"""
+                if is_assign(x):
+                    l = strip(x['lhs'])
+                    return isinstance(l, dict) and l.get('k') == 'mem' and local_of(x['rhs']) == X
+                if x.get('k') == 'call' and (x.get('fn') or '').endswith(('_store_bin_input', '_store_first_inner')) and len(x.get('args', [])) > 1:
+                    return local_of(x['args'][1]) == X
+                return False
+            before = [k_ for k_ in ev.find(keeps) if ev.reach((k_[0], k_[1]), lambda y: y is call, None)[0]]
+            if not before:
+                n += 1
+                rep.add('R-gate-inner', '%s:upipe_set_flow_def(%s)' % (fn.name, X), HOLDS, '%s:%s' % (fn.file, call.get('l')))
+                continue
+            keep = before[0][2]
+            fld = strip(keep['lhs']).get('f') if is_assign(keep) else keep.get('fn')
+
+            def undo(x, keep=keep):
+                if is_assign(x) and is_assign(keep):
+                    l, l0 = strip(x['lhs']), strip(keep['lhs'])
+                    return isinstance(l, dict) and l.get('k') == 'mem' and l.get('f') == l0.get('f') and l.get('rec') == l0.get('rec') and x is not keep
+                if x.get('k') == 'call' and not is_assign(keep):
+                    return x.get('fn') == keep.get('fn') and x is not keep
+                return False
+            # where does a refusal go?
+            fails = []            # positions from which the refusal path starts
+            direct_return = False
+            var = None
+            for bid, st, x in fn.nodes():
+                if x.get('k') == 'return' and isinstance(x.get('e'), dict) and strip_all_casts(fn.resolve(x['e'])) is call:
+                    direct_return = True
+                if is_assign(x) and strip_all_casts(fn.resolve(x['rhs'])) is call:
+                    l = strip(x['lhs'])
+                    if isinstance(l, dict) and l.get('k') == 'ref':
+                        var = l.get('n')
+                if x.get('k') == 'decl':
+                    for v in x.get('vars', []):
+                        if isinstance(v.get('init'), dict) and strip_all_casts(fn.resolve(v['init'])) is call:
+                            var = v['n']
+
+            def is_target(c, var=var):
+                return c is call or (var is not None and c.get('k') == 'ref' and c.get('n') == var)
+            for b in fn.blocks:
+                c = fn.cond(b)
+                if not c:
+                    continue
+                pol = _fail_polarity(fn, c[0], is_target)
+                if pol:
+                    arm = c[1] if pol == 'T' else c[2]
+                    if arm is not None:
+                        fails.append(arm)
+            n += 1
+            inst = '%s:upipe_set_flow_def(%s)' % (fn.name, X)
+            loc = '%s:%s' % (fn.file, call.get('l'))
+            if direct_return and not fails:
+                if fn.name in setflow_handlers:
+                    rep.add('R-gate-inner', inst, OOS, loc, why='the refusal is the result of this pipe\'s own SET_FLOW_DEF: the upstream output gate '
+                            '(R-gate-output) stops feeding this pipe, hence the inner one')
+                else:
+                    rep.add('R-gate-inner', inst, VIOLATED, loc, what='%s installs the pipe (%s, line %s) before negotiating and returns the refusal of '
+                            'upipe_set_flow_def with the pipe still installed: the next buffer is fed to a pipe that rejected the definition' % (
+                                fn.name, fld, keep.get('l')))
+                continue
+            if not fails:
+                rep.add('R-gate-inner', inst, UNDECIDED, loc, why='the result of the negotiation is not tested in a recognised form')
+                continue
+            bad = False
+            for arm in fails:
+                _, ex = ev.reach((arm, -1), lambda y: False, undo)
+                if ex:
+                    bad = True
+            if bad and fn.name in setflow_handlers:
+                rep.add('R-gate-inner', inst, OOS, loc, why='the refusal is the result of this pipe\'s own SET_FLOW_DEF: the upstream output gate stops feeding it')
+            elif bad:
+                rep.add('R-gate-inner', inst, VIOLATED, loc, what='%s installs the pipe (%s, line %s) before negotiating; when upipe_set_flow_def refuses, a path '
+                        'returns with the pipe still installed: later calls find it in place, skip the negotiation and feed buffers to a pipe that rejected '
+                        'the definition' % (fn.name, fld, keep.get('l')))
+            else:
+                rep.add('R-gate-inner', inst, HOLDS, loc)
+    return n
+
+
 def run(tier='quick', repo=None):
     repo = repo or facts.REPO
     rep = Report(PROP, tier)
@@ -439,7 +576,9 @@ def run(tier='quick', repo=None):
     rep.rule('R-gate-feed', 'upipe_input(s->OUTPUT, ...) occurs only inside the generated X_output')
     rep.rule('R-gate-output', 'in X_output: upipe_input is dominated by case UPIPE_HELPER_OUTPUT_VALID of the switch on OUTPUT_STATE; OUTPUT_STATE = VALID is control dependent on ubase_check(upipe_set_flow_def(OUTPUT, FLOW_DEF))')
     rep.rule('R-gate-reset', 'X_store_flow_def: every path stores OUTPUT_STATE = NONE unless it passed the udict_cmp equality test; X_set_output: OUTPUT_STATE = NONE on every path (every call connects an output anew, the same pipe included)')
+    rep.rule('R-gate-inner', 'a function that negotiates with a pipe held in a local variable (upipe_set_flow_def(X, ...)) and installs X in the pipe structure (s->F = X, P_store_bin_input) before the negotiation removes it again on every path the refusal takes - unless the refusal is the result of this pipe\'s own SET_FLOW_DEF, in which case the upstream gate stops the flow')
     prog = load(tier, repo, rep)
+    ninner = 0
     T = throws.Throws(prog)
     for uname, u in sorted(prog.units.items()):
         allocs = []
@@ -453,6 +592,37 @@ def run(tier='quick', repo=None):
             if fn.inmain and fn.blocks:
                 check_dead(rep, prog, T, u, fn)
         check_gate(rep, prog, u)
+        handlers = set()
+        for slots in control.mgr_slots(u):
+            c = slots.get('upipe_control')
+            if c and c in u.funcs:
+                res, _ = control.command_slices(prog, u, u.funcs[c])
+                for sl in res.get('UPIPE_SET_FLOW_DEF', []):
+                    if True:
+                        for b in sl.blocks:
+                            for st in sl.fn.stmts(b):
+                                for x in walk(st):
+                                    if x.get('k') == 'call' and x.get('fn') in u.funcs:
+                                        handlers.add(x['fn'])
+        ninner += check_gate_inner(rep, prog, u, handlers)
+    # in-band flow definitions keep their place among held buffers (path rule shared with C05 R-fifo: a pipe that queues its input
+    # passes flow definitions through the same queue; a handler called behind the back of the held list lets definition B overtake
+    # the buffers of flow A, which then reach the output after B was announced)
+    from rules import c05
+    sub = Report(PROP, tier)
+    c05.check_fifo(sub, prog)
+    rep.rule('R-gate-inband', 'every function of a pipe with a hold list (UPIPE_HELPER_INPUT) that calls the input handler directly - the SET_FLOW_DEF handler that '
+             'sends the definition in-band included - does so under X_check_input() or after X_output_input(): the definition and the buffers reach the '
+             'output in the order they were given (rule shared with C05 R-fifo)')
+    nband = 0
+    for o in sub.obs:
+        if o.rule == 'R-fifo' and o.instance.endswith(':handler-under-check_input'):
+            nband += 1
+            rep.add('R-gate-inband', o.instance, o.status, o.loc, **o.detail)
+    if nband < 10:
+        raise facts.AnalysisBroken('R-gate-inband found only %d callers of input handlers' % nband)
+    if ninner < 3:
+        raise facts.AnalysisBroken('R-gate-inner found only %d negotiations with inner pipes' % ninner)
     rep.assumptions = [
         'a pipe is designated by the variable/parameter and its conversions (X_to_upipe, X_from_upipe, container_of); events on other pipes (super, sub, output) are not attributed',
         'public header API functions other than the upipe_throw*/log family do not throw on the caller\'s pipe',
